@@ -10,6 +10,7 @@ import (
 	"os"
 	"path/filepath"
 	"strings"
+	"time"
 
 	"tkestack.io/kvass/pkg/target"
 	"verif/engine/chk"
@@ -58,6 +59,11 @@ type shortWriter struct {
 	buf  bytes.Buffer
 	x    *vrt.X
 	cap  int // when >0, every write accepts at most cap bytes (position-independent policy)
+	// slow > 0: every write takes this long (a Prometheus that is slow to take the data; the proxy must not
+	// reuse what it handed over before the write returned)
+	slow time.Duration
+	// touched: the buffer of a write changed while the write was in progress
+	touched bool
 }
 
 func (w *shortWriter) Header() http.Header { return w.hdr }
@@ -81,6 +87,17 @@ func (w *shortWriter) Write(p []byte) (int, error) {
 		case 2:
 			k = len(p) / 2
 		}
+	}
+	if w.slow > 0 {
+		// copy first, then linger, then compare: the caller must not have touched p while the write was in
+		// progress (a writer may read p until it returns)
+		cp := append([]byte{}, p[:k]...)
+		time.Sleep(w.slow)
+		if !bytes.Equal(cp, p[:k]) {
+			w.touched = true
+		}
+		w.buf.Write(cp)
+		return k, nil
 	}
 	w.buf.Write(p[:k])
 	return k, nil
@@ -208,6 +225,7 @@ func init() {
 		}
 		r.DevBound = bound
 		var writeCap int
+		var slowWrite time.Duration
 		jobName, jobHash := "j1", uint64(1)
 		var wireFn func(data []byte) []byte // how a gzip body is laid out on the wire (default: one member)
 		one := func(name string, data []byte, gzipOn, assigned bool, sched []int, eofData bool, explore bool) {
@@ -236,7 +254,7 @@ func init() {
 			r.States++
 			var w *shortWriter
 			run := func(x *vrt.X) {
-				w = &shortWriter{hdr: http.Header{}, x: x, cap: writeCap}
+				w = &shortWriter{hdr: http.Header{}, x: x, cap: writeCap, slow: slowWrite}
 				if !explore {
 					w.x = nil
 				}
@@ -262,6 +280,10 @@ func init() {
 				if w.code != 200 {
 					r.Violate("C12:status:"+name, "status-200", fmt.Sprintf("%s gzip=%v: status %d for a successful scrape", name, gzipOn, w.code), idx, &c12Replay{Property: "C12", Clause: "status-200", Case: cs})
 					return true
+				}
+				if w.touched {
+					r.Violate("C12:bytes:buffer-reused-during-write", "byte-for-byte", fmt.Sprintf("%s gzip=%v: the bytes handed to a write on the Prometheus side changed while that write was in progress", name, gzipOn), idx,
+						&c12Replay{Property: "C12", Clause: "byte-for-byte", Case: cs})
 				}
 				if !bytes.Equal(w.buf.Bytes(), data) {
 					// first differing offset
@@ -358,6 +380,21 @@ func init() {
 					}
 				}
 			}
+		}
+		// ---- a Prometheus that is slow to take the data (every write lingers 2 ms), body of 2.5 MiB: free-running
+		// on the Prometheus side, so a proxy that hands data on asynchronously is caught with high likelihood
+		// only, not by enumeration (a synchronous relay - the unchanged tree - cannot be affected) -------------
+		{
+			var sb strings.Builder
+			for i := 0; sb.Len() < 2500*1024; i++ {
+				fmt.Fprintf(&sb, "slow_metric_%d{label=\"value-%d\"} %d\n", i%977, i, i)
+			}
+			big := []byte(sb.String())
+			slowWrite = 2 * time.Millisecond
+			for _, gzipOn := range []bool{false, true} {
+				one("2.5MiB-slow-prometheus", big, gzipOn, true, nil, false, false)
+			}
+			slowWrite = 0
 		}
 		// ---- a job with sample / label limits and dropping metric relabel rules: the relay is the same ----------
 		jobName, jobHash = "j2", 2
